@@ -8,6 +8,12 @@ CLAIMED = {
  "C01": dict(level="exploration", tech="deterministic simulation: seeded interleavings of SSO / login-completion / callback tasks parked at every storage call, storage-fault injection, reference session model at the storage linearisation point",
    text="Seeded search over whole-system executions: several sessions, callbacks fired before/while/after login completion, duplicated, with foreign/unknown ids, under storage errors, key faults, request deletion, replica restarts and clock jumps; every callback reply is decoded independently and judged against the snapshot the storage handed to that very task. Sampling, not proof; exploration is the right level because the property quantifies over histories and interleavings that only a history-carrying simulator reaches.",
    ref="§5 C01", note="Trusts synctest's fake clock and quiescence detection, the simulator's storage semantics (immutable snapshot per AuthRequestByID call), and the independent XML/HTML decoders."),
+ "C03": dict(level="exploration", tech="deterministic simulation: whole SSO→login→callback flows for interleaved sessions under a simulated clock (exact instants, jumps, advance while a request is parked), per-run provider configuration; independently parsed assertion compared field by field with the storage record handed to that task",
+   text="Seeded search over flows in both bindings with stored-request and user fields drawn from XML-legal alphabets (metacharacters, CR/LF/TAB, blanks, non-BMP), several sessions in flight, replica switches and key rotation. Every Success reply is decoded by an independent HTML/redirect/XML reader and compared with the snapshot, user and entity the simulated storage returned to that very request; the validity window is checked against the simulated-time interval of the call (exact when the clock did not move).",
+   ref="§5 C03", note="Issuer is compared with the simulator's configuration model of the entity ID (C11 checks that model against served metadata). Attribute order is compared as a multiset because the library iterates a map."),
+ "C04": dict(level="exploration", tech="deterministic simulation: every signed artefact received by a simulated SP (callback POST/Redirect, attribute-query response, signed metadata) is verified by an independent exclusive-C14N/XML-DSig and HTTP-Redirect-signature verifier under the key version the storage handed to the signing request, across key rotation and interleaving",
+   text="Seeded search; the verifying party is a different implementation than the signer, trusts the certificate of the key version current for that request, and checks the raw query string actually sent. Strings reaching signed content are workload (sampled), which is the thin part of this property for a simulator; an unsigned Success assertion reaching any party is a violation.",
+   ref="§5 C04", note="Known finding: content needing canonical escaping breaks enveloped signatures (dependency amdonov/xmlsig); plain content is still verified."),
  "C08": dict(level="exploration", tech="deterministic simulation: seeded SSO requests (conformant, deviating at each validation step, tampered, duplicated) against SP registrations with unsupported bindings, storage/body/writer fault injection, per-request persist count vs. independently decoded reply shape",
    text="Seeded search over SSO executions: per request the number of successful persists recorded by the simulated storage is compared with the shape of the single reply as decoded by an independent HTML/XML/redirect reader (303 to the login URL of the returned id, or exactly one non-Success Response / plain HTTP error; never empty, never several messages), under persist failures, body-read faults, duplicated submissions and interleaving with other requests.",
    ref="§5 C08", note="Trusts the simulator's storage (persist = successful CreateAuthRequest) and the independent reply decoders; writer-fault runs judge the persist count only."),
